@@ -262,10 +262,13 @@ Theorem dup_hash_correct c xe xh sort l : Z.of_nat (length l) < 2 ^ 64 ->
   fst (dup_hash c xe xh sort l) = dup_linear c xe (map (hash_cache c xh) l).
 Proof.
   intros Hn. unfold dup_hash, table_size.
-  destruct (table_size_grow 64 4 (Z.quot (Z.of_nat (length l) * 10) 7) ltac:(lia)) as (k' & Hk1 & Hk2 & Hk3).
-  change 16 with (2 ^ 4). rewrite Hk2.
+  (* the generated constants: the first size is a power of two, the load factor is at least 1 *)
+  assert (Hinit : HASH_INIT_SIZE = 2 ^ 4) by reflexivity.
+  assert (Hload : 0 < HASH_LOAD_DEN <= HASH_LOAD_NUM) by (unfold HASH_LOAD_DEN, HASH_LOAD_NUM; lia).
+  destruct (table_size_grow 64 4 (Z.quot (Z.of_nat (length l) * HASH_LOAD_NUM) HASH_LOAD_DEN) ltac:(lia)) as (k' & Hk1 & Hk2 & Hk3).
+  rewrite Hinit, Hk2.
   assert (Hfit : Z.of_nat (length l) <= 2 ^ k').
-  { assert (Hq : Z.of_nat (length l) <= Z.quot (Z.of_nat (length l) * 10) 7) by (apply Z.quot_le_lower_bound; lia).
+  { assert (Hq : Z.of_nat (length l) <= Z.quot (Z.of_nat (length l) * HASH_LOAD_NUM) HASH_LOAD_DEN) by (apply Z.quot_le_lower_bound; nia).
     destruct Hk3 as [H|H]; [lia|]. subst k'. change (2 ^ (4 + Z.of_nat 64)) with (2 ^ 68). lia. }
   rewrite (dup_hash_loop_scan c xe xh sort k' ltac:(lia) l _ []).
   - rewrite scan_linear. cbn [existsb].
